@@ -2,6 +2,7 @@
 """merge a work-package branch: files via git merge -X ours, shared JSON/registry files by union"""
 import json, subprocess, sys
 br = sys.argv[1]
+take_props = set(sys.argv[2].split(',')) if len(sys.argv) > 2 else set()
 def sh(*a, check=True):
     r = subprocess.run(a, cwd='/verif', capture_output=True, text=True)
     if check and r.returncode != 0:
@@ -27,6 +28,7 @@ if t:
     for k, v in th.items():
         if k.startswith('_'): continue
         if k not in ours: ours[k] = v; print('claims +', k)
+        elif k in take_props and ours[k] != v: ours[k] = v; print('claims ~', k)
     json.dump(ours, open('/verif/tools/claims.json', 'w'), indent=1)
 t = theirs('known_findings.json')
 if t:
@@ -35,6 +37,10 @@ if t:
     for f in th.get('findings', []):
         if (f['property'], f['sig']) not in have:
             ours['findings'].append(f); print('finding +', f['property'], f['sig'])
+        elif f['property'] in take_props:
+            for i, o in enumerate(ours['findings']):
+                if (o['property'], o['sig']) == (f['property'], f['sig']) and o != f:
+                    ours['findings'][i] = f; print('finding ~', f['property'], f['sig'], f['status'])
     json.dump(ours, open('/verif/known_findings.json', 'w'), indent=1)
 t = theirs('tools/props.json')
 if t:
